@@ -297,6 +297,15 @@ def tt_case(rec, res, label, A, shp, N, M, eps, rmax):
             for (s, e, r), k in zip(box["calls"], range(1, d)):
                 if r > rm[k]:
                     binding = True
+        # hypothesis `hb` of ttsvd_sweep_bound on this very run: the per-bond allowances (relative to the current remainder norm)
+        # must add up, in squares, to at most eps^2
+        tot = 0.0
+        for (s, e, r) in box["calls"]:
+            ns = float(np.linalg.norm(s))
+            if ns > 0:
+                tot += (e / ns) ** 2
+        if tot > eps * eps * (1 + 1e-9):
+            return "per-bond allowances sum to %.6g > eps^2 = %.6g (the sweep may discard more than eps allows)" % (tot, eps * eps)
         if not binding:
             full = dense_of(x).to(Ad.dtype)
             err = float(tn.linalg.norm((full - Ad.reshape(full.shape)).reshape(-1)))
